@@ -701,7 +701,7 @@ namespace ip {
 	// operation since we last drained, wake up the reader
 	void tcp::socket::maybe_wakeup_reader()
 	{
-		if (m_incoming_queue.size() != 1 || (!m_recv_handler && !m_wait_recv_handler)) return;
+		if (m_incoming_queue.empty() || (!m_recv_handler && !m_wait_recv_handler)) return;
 
 		if (m_recv_null_buffers)
 		{
